@@ -84,7 +84,11 @@ RaisesOK(a, ev) ==
                        /\ (Raised(ev) => ev.exc \in {"ValueError", "TypeError"})
     [] OTHER -> Raised(ev) = MustRaise(a, store)
 
-ExpStore(a) == IF Forbidden(a) THEN store ELSE StoreAfter(a, store)
+(* reopening a database whose access mode is "w+" truncates the file: that  *)
+(* is Python's meaning of the mode, applied each time the file is opened    *)
+ExpStore(a) == IF Forbidden(a) THEN store
+               ELSE IF a.op = "reopen" /\ Mode = "w+" THEN <<>>
+               ELSE StoreAfter(a, store)
 (* events of traces whose contents cannot be projected at every step       *)
 (* (flush_on_insert = False: the file may lag) carry nostore = 1; the      *)
 (* specification's own contents are carried forward and compared with the  *)
@@ -129,7 +133,7 @@ NoWriteOps == ReadOps \cup {"reindex", "bad"}
 IOFailing(a, ev) ==
   IF ~ HasIO(ev) THEN {} ELSE
   LET io == ev.io
-      new == IF Forbidden(a) \/ (Raised(ev) /\ a.op # "insert_multiple") THEN store ELSE StoreAfter(a, store)
+      new == IF Forbidden(a) \/ (Raised(ev) /\ a.op # "insert_multiple") THEN store ELSE ExpStore(a)
       nochange == a.op \in NoWriteOps \/ new = store
       badSnaps == {i \in 1..Len(io.snaps) : io.snaps[i] \notin CrashAllowed(a, store)}
   IN   (IF badSnaps # {} THEN {[clause |-> "crash", expected |-> SetToSeq(badSnaps)]} ELSE {})
